@@ -11,6 +11,9 @@ func register(name string, f func([]string)) { commands[name] = f }
 
 func main() {
 	register("dump-tables", cmdDumpTables)
+	register("run", cmdRun)
+	register("worker", cmdWorker)
+	register("gen-rand", cmdGenRand)
 	if len(os.Args) < 2 {
 		fmt.Fprintln(os.Stderr, "usage: vharness <cmd> ...")
 		os.Exit(2)
